@@ -358,7 +358,10 @@ func c14CLI(r *core.Run, tier string) {
 		"\tNOP ; \u65e5\u672c\u8a9e\n",       // UTF-8 comment
 		"\tDB \"\xb1\xb2\xb3\"\n",            // half-width katakana (single bytes >= 0x80)
 		"\tDB \"plain ascii\"\n\tDW 0x1234\n",
-		"\tMOV AX,0x1234 # \x83\x5c\n", // Shift_JIS character with a 0x5C trail byte in a comment
+		"\tMOV AX,0x1234 # \x83\x5c\n",        // Shift_JIS character with a 0x5C trail byte in a comment
+		"\tMOV BX,2 ; table in doc\\bios\\\n", // an ASCII comment whose last character is a backslash
+		"; only a comment \\\n\tMOV CX,3\n",   // a comment LINE ending in a backslash in front of a statement
+		"\tDB 1,2, \\\n",                      // a backslash outside a comment: refused alone (then not judged)
 	}
 	alone := make([]*core.Result, len(stmts))
 	for i, s := range stmts {
@@ -387,7 +390,7 @@ func c14CLI(r *core.Run, tier string) {
 		}
 	}
 	r.AddNT("cli_pairs")
-	r.AddCustom("cli_pairs", "all ordered pairs of 8 statements with non-ASCII bytes in strings and comments (UTF-8, Shift_JIS double-byte incl. a 0x5C trail byte, half-width katakana), each pair and each statement assembled by the REAL command: out(A;B) = out(A)||out(B)",
+	r.AddCustom("cli_pairs", "all ordered pairs of 11 statements with non-ASCII bytes in strings and comments (UTF-8, Shift_JIS double-byte incl. a 0x5C trail byte, half-width katakana) or a backslash as the last character of a comment, each pair and each statement assembled by the REAL command: out(A;B) = out(A)||out(B)",
 		map[string]any{"statements": len(stmts)}, n+int64(len(stmts)), n, n+int64(len(stmts)), nt, 1, true, time.Since(t0).Seconds())
 }
 
